@@ -1,13 +1,121 @@
+/-
+C18 — property theorems, part 2: `<cstring>` / `<cwchar>` (part 1, character classes: `PropsCtype.lean`).
+
+For every allocation, offset and count satisfying the C preconditions — written as the decidable
+predicates `Spec.Terminated`, `Spec.ReadableN` and a room inequality, the same ones the generator
+of `checks/props/c18.py` uses — the model returns `.ok` (no read or write outside an allocation,
+no fuel exhaustion: the memory-safety face, C02) of exactly the ISO C result.  For the writers the
+*whole* destination allocation equals `Spec.splice …`: every unit outside the extent C defines is
+unchanged.
+-/
 import TetlProofs.C18.Lemmas
 namespace Tetl.C18.Props
 open Tetl Tetl.C18
 
-theorem isalpha_eq (c : Int) (h1 : -1 ≤ c) (h2 : c ≤ 255) : isalpha c = Spec.isalpha c := by
-  have := forall_ctype_range (p := fun c => isalpha c == Spec.isalpha c) (by decide +kernel) c h1 h2
-  simpa using this
+/-! ## strlen, copies, concatenations, fills -/
 
-theorem tolower_eq (c : Int) (h1 : -1 ≤ c) (h2 : c ≤ 255) : tolower c = Spec.tolower c := by
-  have := forall_ctype_range (p := fun c => tolower c == Spec.tolower c) (by decide +kernel) c h1 h2
-  simpa using this
+
+theorem strlen_eq (b : Buf) (p : Nat) (h : Spec.Terminated b p) : strlen b p = .ok (Spec.strlen b p) := by
+  unfold strlen
+  rw [strlenLoop_spec b (b.drop p) p (b.length + 1) rfl h (drop_length_lt b p)]
+  simp [Spec.strlen, Spec.cstr]
+
+theorem strcpy_eq (dst : Buf) (d : Nat) (src : Buf) (s : Nat) (hs : Spec.Terminated src s)
+    (hroom : d + (Spec.strlen src s + 1) ≤ dst.length) :
+    strcpy dst d src s = .ok (d, Spec.strcpy dst d src s) := by
+  obtain ⟨A, M, B, rfl, hA, hM⟩ := exists_decomp dst d _ hroom
+  unfold strcpy
+  rw [strcpyLoop_spec src (src.drop s) s (src.length + 1) A M B d rfl hs (drop_length_lt src s) hA.symm
+    (by simpa [Spec.strlen, Spec.cstr] using hM)]
+  simp only [ok_bind, Spec.strcpy, Spec.cstr]
+  rw [← hA, splice_zip A M B _ (by simpa [Spec.strlen, Spec.cstr] using hM)]
+
+
+theorem strncpy_eq (dst : Buf) (d : Nat) (src : Buf) (s n : Nat) (hs : Spec.ReadableN src s n)
+    (hroom : d + n ≤ dst.length) :
+    strncpy dst d src s n = .ok (d, Spec.strncpy dst d src s n) := by
+  obtain ⟨A, M, B, rfl, hA, hM⟩ := exists_decomp dst d n hroom
+  have hle := length_cstrN_le src s n
+  have ht : ((src.drop s).take n).takeWhile (· ≠ 0) = Spec.cstrN src s n := rfl
+  obtain ⟨M1, M2, rfl, hM1, hM2⟩ := exists_split M (Spec.cstrN src s n).length (n - (Spec.cstrN src s n).length) (by omega)
+  have h1 := strncpyCopy_spec src n (src.drop s) s A M1 (M2 ++ B) d rfl (readableN_drop hs) hA.symm (by rw [ht]; exact hM1)
+  rw [ht] at h1
+  have h2 := fillLoop_spec 0 (n - (Spec.cstrN src s n).length) (A ++ Spec.cstrN src s n) M2 B
+    (d + (Spec.cstrN src s n).length) (by simp [hA]) hM2
+  rw [List.append_assoc] at h2
+  unfold strncpy
+  rw [List.append_assoc M1 M2 B, h1]
+  simp only [ok_bind]
+  rw [h2]
+  simp only [ok_bind, Spec.strncpy]
+  rw [← hA, ← List.append_assoc M1 M2 B, splice_zip A (M1 ++ M2) B _ (by simp; omega)]
+  simp [List.append_assoc]
+
+
+theorem memcpy_eq (dst : Buf) (d : Nat) (src : Buf) (s n : Nat) (hs : s + n ≤ src.length) (hroom : d + n ≤ dst.length) :
+    memcpy dst d src s n = .ok (d, Spec.memcpy dst d src s n) := by
+  obtain ⟨A, M, B, rfl, hA, hM⟩ := exists_decomp dst d n hroom
+  unfold memcpy
+  rw [memcpyLoop_spec src n (src.drop s) s A M B d rfl (by simp; omega) hA.symm hM]
+  simp only [ok_bind, Spec.memcpy]
+  rw [← hA, splice_zip A M B _ (by simp; omega)]
+
+theorem memset_eq (ct : CT) (dst : Buf) (d : Nat) (ch : Int) (n : Nat) (hroom : d + n ≤ dst.length) :
+    memset ct dst d ch n = .ok (d, Spec.memset dst d (Spec.toUnit ct.bits ch) n) := by
+  obtain ⟨A, M, B, rfl, hA, hM⟩ := exists_decomp dst d n hroom
+  unfold memset
+  rw [fillLoop_spec (ct.cast ch) n A M B d hA.symm hM]
+  simp only [ok_bind, Spec.memset]
+  rw [← hA, splice_zip A M B _ (by simp [hM])]
+  rfl
+
+theorem strcat_eq (dst : Buf) (d : Nat) (src : Buf) (s : Nat) (hd : Spec.Terminated dst d) (hs : Spec.Terminated src s)
+    (hroom : d + Spec.strlen dst d + (Spec.strlen src s + 1) ≤ dst.length) :
+    strcat dst d src s = .ok (d, Spec.strcat dst d src s) := by
+  unfold strcat
+  rw [strlen_eq dst d hd]
+  simp only [ok_bind, Spec.strcat]
+  generalize Spec.strlen dst d = n at *
+  obtain ⟨A, M, B, rfl, hA, hM⟩ := exists_decomp dst (d + n) _ hroom
+  obtain ⟨M1, y, rfl, hM1⟩ := exists_snoc M _ hM
+  have ht : (src.drop s).takeWhile (· ≠ 0) = Spec.cstr src s := rfl
+  have h1 := strcatLoop_spec src (src.drop s) s (src.length + 1) A M1 ([y] ++ B) (d + n) rfl hs (drop_length_lt src s) hA.symm
+    (by rw [ht]; exact hM1)
+  rw [ht] at h1
+  rw [List.append_assoc M1 [y] B, h1]
+  simp only [ok_bind]
+  have h2 := wr_zip' (A ++ Spec.cstr src s) y B 0 (d + n + (Spec.cstr src s).length) (by simp [hA])
+  rw [List.append_assoc] at h2
+  simp only [List.singleton_append]
+  rw [h2]
+  simp only [ok_bind]
+  have e : A ++ (M1 ++ y :: B) = A ++ ((M1 ++ [y]) ++ B) := by simp
+  rw [← hA, e, splice_zip A (M1 ++ [y]) B _ (by simp [hM1, Spec.strlen])]
+  simp [List.append_assoc]
+
+theorem strncat_eq (dst : Buf) (d : Nat) (src : Buf) (s n : Nat) (hd : Spec.Terminated dst d) (hs : Spec.ReadableN src s n)
+    (hroom : d + Spec.strlen dst d + ((Spec.cstrN src s n).length + 1) ≤ dst.length) :
+    strncat dst d src s n = .ok (d, Spec.strncat dst d src s n) := by
+  unfold strncat
+  rw [strlen_eq dst d hd]
+  simp only [ok_bind, Spec.strncat]
+  generalize Spec.strlen dst d = k at *
+  obtain ⟨A, M, B, rfl, hA, hM⟩ := exists_decomp dst (d + k) _ hroom
+  obtain ⟨M1, y, rfl, hM1⟩ := exists_snoc M _ hM
+  have ht : ((src.drop s).take n).takeWhile (· ≠ 0) = Spec.cstrN src s n := rfl
+  have h1 := strncatLoop_spec src n (src.drop s) s A M1 ([y] ++ B) (d + k) rfl (readableN_drop hs) hA.symm
+    (by rw [ht]; exact hM1)
+  rw [ht] at h1
+  rw [List.append_assoc M1 [y] B, h1]
+  simp only [ok_bind]
+  have h2 := wr_zip' (A ++ Spec.cstrN src s n) y B 0 (d + k + (Spec.cstrN src s n).length) (by simp [hA])
+  rw [List.append_assoc] at h2
+  simp only [List.singleton_append]
+  rw [h2]
+  simp only [ok_bind]
+  have e : A ++ (M1 ++ y :: B) = A ++ ((M1 ++ [y]) ++ B) := by simp
+  rw [← hA, e, splice_zip A (M1 ++ [y]) B _ (by simp [hM1])]
+  simp [List.append_assoc]
+
 
 end Tetl.C18.Props
